@@ -645,6 +645,8 @@ class Engine:
         if isinstance(tgt, (ast.Tuple, ast.List)):
             if isinstance(v, Tup):
                 items = v.items
+            elif is_sym(v) and v.sort().name() == 'Obj':
+                items = [z3.Function('ITEM%d' % k, v.sort(), v.sort())(v) for k in range(len(tgt.elts))]
             elif isinstance(v, Ref) and isinstance(st.heap[v.oid], Arr):
                 a = st.heap[v.oid]
                 self.emit(self.site('unpack', tgt), st, a.shape[0] == len(tgt.elts))
@@ -1086,7 +1088,12 @@ class Engine:
                 if qual == last and rel.endswith('/%s.py' % modname) or (qual == last and rel.endswith('/%s.pyx' % modname)):
                     return q
         elif name in getattr(self.cur_mod, 'imports', {}):
-            pass
+            modpath, orig = self.cur_mod.imports[name]
+            if orig is not None:
+                for ext in ('.py', '.pyx'):
+                    k = '%s%s::%s' % (modpath, ext, orig)
+                    if k in self.registry:
+                        return k
         return None
 
     def eval(self, n, st):
